@@ -10,13 +10,13 @@ demo() {  # $1 = tag
 }
 {
 cd $WT || exit 9
-git checkout -q -- . ; git checkout -q --detach $(git -C /repo rev-parse HEAD); git apply $D/$M.diff || { echo "APPLY FAILED"; exit 3; }
+git reset -q --hard ; git checkout -q --detach $(git -C /repo rev-parse HEAD); git apply $D/$M.diff 2>/dev/null || git apply -3 $D/$M.diff || { echo "APPLY FAILED"; exit 3; }
 make -j4 > $D/${M}_build.log 2>&1; echo "build rc=$?"
 grep -c "warning:" $D/${M}_build.log | sed 's/^/warnings in build log: /'
 make -C tests check > $D/${M}_suite.log 2>&1; echo "suite rc=$?"
 grep -E "^# (TOTAL|PASS|FAIL|ERROR)" $D/${M}_suite.log | tr '\n' ' '; echo
 echo "demo on modified: exit $(demo mod)"; tail -2 $D/${M}_demo_mod.out
-git checkout -q -- . ; make -j4 > /dev/null 2>&1
+git reset -q --hard ; make -j4 > /dev/null 2>&1
 echo "demo on unmodified: exit $(demo orig)"; tail -2 $D/${M}_demo_orig.out
 } > $OUT 2>&1
 echo "$ID $M done"
